@@ -85,6 +85,9 @@ def default_of(ty):
     return ("default", ty)
 
 
+from sym import WIDEN as S_WIDEN
+
+
 def apply_model(sym, n, f, vals, mut_idx, st):
     p = short_path(f["path"])
     last = p.split("::")[-1]
@@ -636,6 +639,17 @@ def apply_model(sym, n, f, vals, mut_idx, st):
         return V(("fmtargs", (("txt", vals[0][2]),) if vals[0][0] == "lit" else (("dyn", vals[0]),), ()))
     if p == "std::fmt::format" and len(vals) == 1:
         return V(("format", vals[0]))
+    # `usize::try_from(x)` / `x.try_into()` from a narrower unsigned type: always Ok(x) (the analysed build is the 64-bit one the
+    # crate is built for; `u32 -> usize` fails only on 16-bit targets)
+    if p in ("std::convert::TryFrom::try_from", "std::convert::TryInto::try_into") and len(vals) == 1 and len(f.get("targs") or []) == 2:
+        ta_ = list(f["targs"])
+        dst_, src_ = (ta_[0], ta_[1]) if p.endswith("try_from") else (ta_[1], ta_[0])
+        if (src_, dst_) in S_WIDEN and not src_.startswith("i") and not dst_.startswith("i") and dst_ != "char":
+            return V(("adt", "Result", "Ok", (("0", vals[0]),)))
+    m_ = re.match(r"^core::num::<impl (u8|u16|u32|u64|usize)>::(max_value|min_value)$", f["path"])
+    if m_ and not vals:
+        bits_ = {"u8": 8, "u16": 16, "u32": 32, "u64": 64, "usize": 64}[m_.group(1)]
+        return V(lit_int((1 << bits_) - 1 if m_.group(2) == "max_value" else 0))
     # other spellings of "these strings one after the other": `[a, b].concat()`, `a.to_owned() + b` - the text `format!("{a}{b}")` builds
 
     def str_parts(v_):
